@@ -16,6 +16,7 @@ Oracle (C18 statement):
     with complete framing.  A visibly cut transfer (short of Content-Length, no last-chunk, connection closed) is
     tolerated.
 """
+import os
 import re
 import time
 
@@ -523,6 +524,7 @@ def run_smp(ctx, t_end):
     from vverif import core, lssmp
     c19 = core.load_check('C19')
     lssmp.ensure_smp_shim(ctx)
+    c19.make_template(ctx)
     units = smp_cases()
 
     def worker(shard, mine):
@@ -593,7 +595,11 @@ def run_smp(ctx, t_end):
                 st['w'].stop()
         out['states'] = list(out['states'])
         return out
-    parts = ls.run_sharded(ctx, worker, units)
+    try:
+        parts = ls.run_sharded(ctx, worker, units)
+    finally:
+        import shutil
+        shutil.rmtree(os.path.join(ctx.rundir, 'rock-template'), ignore_errors=True)
     agg = {'units': len(units), 'units_done': 0, 'execs': 0, 'transitions': 0, 'collapsed': 0, 'kicks': 0, 'replays': 0}
     states, vio, crashes, samples = set(), {}, [], []
     for p in parts:
